@@ -60,6 +60,7 @@ type translator struct {
 	globals  map[string]global
 	funcs    map[string]*funcSig // by Go name ("fromEntropy", "Language.String")
 	langCons map[string]bool
+	tables   map[string]bool // variables of internal/wordlist
 	gateCond map[ast.Node]bool
 	assigned map[string]string // package-level identifier -> where it is assigned / mutated outside its declaration
 	done     map[string]string // function -> "" (ok) or reason
@@ -276,6 +277,15 @@ func (f *fnTr) expr(e ast.Expr, want string) tval {
 		return f.binary(x, want)
 	case *ast.CallExpr:
 		return f.call(x, want)
+	case *ast.SelectorExpr:
+		// wordlist.X: one of the ten tables of internal/wordlist (Gen/Lang.lean numbers them)
+		if p, ok := f.pkgOf(x.X); ok && strings.HasSuffix(p, "/internal/wordlist") {
+			if !f.t.tables[x.Sel.Name] {
+				f.bad(x, "wordlist.%s is not one of the word tables", x.Sel.Name)
+			}
+			return tval{term: "(Model.words Gen.t" + x.Sel.Name + ")", typ: "[]string"}
+		}
+		f.bad(x, "selector %s", x.Sel.Name)
 	case *ast.IndexExpr:
 		a := f.expr(x.X, "")
 		i := f.expr(x.Index, "")
@@ -732,7 +742,12 @@ func (f *fnTr) method(c *ast.CallExpr, se *ast.SelectorExpr, want string) tval {
 		switch m {
 		case "list":
 			f.need(c, 0)
-			return tval{pre: recv.pre, term: "(Go.langList " + recv.term + ")", typ: "[]string"}
+			if why := f.t.translate("Language.list"); why != "" {
+				f.bad(c, "callee Language.list is not translatable: %s", why)
+			}
+			f.deps["Language.list"] = true
+			t := f.fresh()
+			return tval{pre: append(recv.pre, fmt.Sprintf("Go.bind (%s W %s) fun %s =>", f.t.funcs["Language.list"].lean, recv.term, t)), term: t, typ: "[]string"}
 		case "mapping":
 			f.need(c, 0)
 			t := f.fresh()
@@ -1146,6 +1161,13 @@ func (f *fnTr) block(stmts []ast.Stmt, em *emitter, inLoop bool) bool {
 			em.add(v.pre...)
 		case *ast.IfStmt:
 			f.ifStmt(x, em, inLoop)
+		case *ast.SwitchStmt:
+			if f.switchStmt(x, em, inLoop) {
+				if i != len(stmts)-1 {
+					f.bad(x, "statements after a switch that always returns")
+				}
+				return true
+			}
 		case *ast.ForStmt:
 			f.forStmt(x, em)
 		case *ast.RangeStmt:
@@ -1323,6 +1345,93 @@ func (f *fnTr) ifStmt(x *ast.IfStmt, em *emitter, inLoop bool) {
 		}
 	}
 	em.add("if " + c.term + " then (")
+	em.lines = append(em.lines, sub.lines...)
+	em.add(") else")
+}
+
+// switch tag { case c1, c2: …return…  default: …return… }: an integer tag, constant cases, every clause
+// ends in return, no fallthrough.  Cases are tried in source order; default (wherever it stands) last.
+// Returns true if the switch returns on every path (it has a default clause).
+func (f *fnTr) switchStmt(x *ast.SwitchStmt, em *emitter, inLoop bool) bool {
+	if x.Init != nil || x.Tag == nil {
+		f.bad(x, "switch with an init statement or without a tag")
+	}
+	tag := f.expr(x.Tag, "")
+	if !isIntType(tag.typ) {
+		f.bad(x, "switch on a %s", tag.typ)
+	}
+	if _, isIdent := x.Tag.(*ast.Ident); !isIdent {
+		f.bad(x, "switch tag that is not a variable")
+	}
+	em.add(tag.pre...)
+	var def *ast.CaseClause
+	for _, st := range x.Body.List {
+		cc, ok := st.(*ast.CaseClause)
+		if !ok {
+			f.bad(st, "switch body")
+		}
+		if cc.List == nil {
+			def = cc
+			continue
+		}
+		conds := []string{}
+		for _, e := range cc.List {
+			v := f.expr(e, tag.typ)
+			if v.typ == "untyped" {
+				v = f.convConst(e, v, tag.typ)
+			}
+			if v.typ != tag.typ || len(v.pre) > 0 {
+				f.bad(e, "case of type %s in a switch on %s", v.typ, tag.typ)
+			}
+			if _, isConst := f.t.globals[strings.TrimPrefix(v.term, "Gen.v")]; v.cst == nil && !(isConst && strings.HasPrefix(v.term, "Gen.v")) {
+				f.bad(e, "case that is not a constant")
+			}
+			conds = append(conds, "decide ("+tag.term+" = "+v.term+")")
+		}
+		f.clause(cc, em, inLoop, "if ("+strings.Join(conds, " || ")+") then (")
+	}
+	if def == nil {
+		return false
+	}
+	sub := &emitter{indent: em.indent}
+	saved := map[string]string{}
+	for k, v := range f.vars {
+		saved[k] = v
+	}
+	if !f.block(def.Body, sub, inLoop) {
+		f.bad(def, "default clause that does not end in return")
+	}
+	for k := range f.vars {
+		if _, ok := saved[k]; !ok {
+			delete(f.vars, k)
+			delete(f.origin, k)
+		}
+	}
+	em.lines = append(em.lines, sub.lines...)
+	return true
+}
+
+func (f *fnTr) clause(cc *ast.CaseClause, em *emitter, inLoop bool, header string) {
+	for _, st := range cc.Body {
+		if bs, ok := st.(*ast.BranchStmt); ok {
+			f.bad(bs, "%s in a switch", bs.Tok)
+		}
+	}
+	sub := &emitter{indent: em.indent + 1}
+	saved := map[string]string{}
+	for k, v := range f.vars {
+		saved[k] = v
+	}
+	if !f.block(cc.Body, sub, inLoop) {
+		f.bad(cc, "case clause that does not end in return")
+	}
+	for k := range f.vars {
+		if _, ok := saved[k]; !ok {
+			delete(f.vars, k)
+			delete(f.origin, k)
+		}
+	}
+	em.add(header)
 	em.lines = append(em.lines, sub.lines...)
 	em.add(") else")
 }
@@ -1521,6 +1630,9 @@ func (t *translator) translate(name string) (why string) {
 		sb.WriteString(g + "\n")
 	}
 	fmt.Fprintf(&sb, "/-- %s (%s:%d) -/\n", name, sig.file, t.fset.Position(fd.Pos()).Line)
+	if strings.Contains(rt, " ") {
+		rt = "(" + rt + ")"
+	}
 	fmt.Fprintf(&sb, "def %s (W : Go.World) %s : Go.M %s :=\n", sig.lean, strings.Join(params, " "), rt)
 	sb.WriteString(strings.Join(em.lines, "\n"))
 	sb.WriteString("\n")
@@ -1537,7 +1649,7 @@ func (t *translator) translate(name string) (why string) {
 
 // newTranslator collects the package-level facts the function translation needs.
 func newTranslator(fset *token.FileSet, files map[string]*ast.File, langConsts []string, problems *[]string) *translator {
-	t := &translator{fset: fset, files: files, globals: map[string]global{}, funcs: map[string]*funcSig{}, langCons: map[string]bool{},
+	t := &translator{tables: map[string]bool{},fset: fset, files: files, globals: map[string]global{}, funcs: map[string]*funcSig{}, langCons: map[string]bool{},
 		assigned: map[string]string{}, done: map[string]string{}, out: map[string]string{}, deps: map[string][]string{}}
 	for _, c := range langConsts {
 		t.langCons[c] = true
